@@ -358,9 +358,10 @@ inline void oracle_C08(An &a, vf::Stats &st) {
 // ---------------------------------------------------------------------------------------------------------------- C16
 inline void oracle_C16(An &a, vf::Stats &st) {
   st.add("cases");
-  if (!a.scan_ok || a.fr.excluded || a.macros) { st.add("skipped_excluded"); return; }
+  if (!a.scan_ok || a.fr.excluded) { st.add("skipped_excluded"); return; }
   a.compile();
   st.nontrivial.insert(vf::fnv(a.cj));
+  if (a.macros) st.add("with_user_macros");
   bool unknown = false; for (auto &e : a.cr.errors) if (e.t == Theo::CodegenResult::Error::Type::UNKNOWN_PROGRAM_NAME) unknown = true;
   bool ref_unknown = !a.fr.accept && a.fr.why.rfind("unknown program", 0) == 0;
   if (a.fr.accept != a.cr.generated_correctly) {
@@ -397,7 +398,7 @@ inline void oracle_C16(An &a, vf::Stats &st) {
   if (r.finished && vm.isDone()) {
     if (!r.trace_cut) {
       std::map<std::pair<std::string, int>, long long> rv; for (auto &t : r.trace) rv[{t.pos.file, t.pos.line}]++;
-      bool oneperline = true;  // visit counts are only defined for one-statement-per-line sources
+      bool oneperline = !a.macros;  // visit counts are only defined for one-statement-per-line sources without user macros
       { std::set<std::pair<std::string, int>> seen; for (auto &rt : sem.routines) for (auto &o : rt.ops) if (o.t == ref::Op::ASSIGN || o.t == ref::Op::STOP || o.t == ref::Op::GOTO || o.t == ref::Op::IF || o.t == ref::Op::LOOPHEAD || o.t == ref::Op::WHILEHEAD || o.t == ref::Op::ENDMARK || o.t == ref::Op::PROGEND) if (!seen.insert({o.pos.file, o.pos.line}).second) oneperline = false;
         for (auto &o : sem.mainr.ops) if (o.t != ref::Op::MAINEND && o.t != ref::Op::LOOPTEST && o.t != ref::Op::LOOPBACK && o.t != ref::Op::WHILETEST && o.t != ref::Op::JUMP) if (!seen.insert({o.pos.file, o.pos.line}).second) oneperline = false; }
       if (oneperline && rv != visits) {
